@@ -17,9 +17,10 @@ ASSUMPTIONS = [
     "case-insensitive cases use only characters on which str.upper, str.lower, str.casefold and re.IGNORECASE agree",
 ]
 GATES = ["mon.C07.get", "mon.C07.roundtrip_abs", "mon.C07.roundtrip_rel", "C07.err.ResolverError", "C07.err.RootResolverError", "C07.err.ChildResolverError",
-         "C07.relaxed_miss_first", "C07.relaxed_miss_middle", "C07.relaxed_miss_last", "C07.ignorecase_hit", "C07.sep_other", "C07.wildcard_chars_in_names", "C07.after_mutation", "C07.option_attributes_reassigned", "C07.tree_with_symlinks", "C07.tuple_valued_pathattr"]
+         "C07.relaxed_miss_first", "C07.relaxed_miss_middle", "C07.relaxed_miss_last", "C07.ignorecase_hit", "C07.sep_other", "C07.wildcard_chars_in_names", "C07.after_mutation", "C07.option_attributes_reassigned", "C07.tree_with_symlinks", "C07.tuple_valued_pathattr", "C07.falsy_nodes", "C07.int_valued_pathattr"]
 
 _CLS = {}
+KINDS = ("Node", "AnyNode", "NM", "LM", "FalsyNode", "FalsyAny")
 
 
 def node_class(kind, sep):
@@ -27,7 +28,7 @@ def node_class(kind, sep):
 
     key = (kind, sep)
     if key not in _CLS:
-        base = {"Node": F.Node, "AnyNode": F.AnyNode, "NM": F.NM, "LM": F.LM}[kind]
+        base = {"Node": F.Node, "AnyNode": F.AnyNode, "NM": F.NM, "LM": F.LM, "FalsyNode": F.FalsyNode, "FalsyAny": F.FalsyAny}[kind]
         body = {"separator": sep}
         if kind == "LM":
             body["__slots__"] = ()
@@ -39,7 +40,7 @@ def build(par, names, kind="Node", sep="/", pathattr="name"):
     cls = node_class(kind, sep)
     nodes = []
     for i in range(len(par)):
-        if kind == "AnyNode":
+        if kind in ("AnyNode", "FalsyAny"):
             nodes.append(cls(**{pathattr: names[i]}))
         else:
             nodes.append(cls(names[i]))
@@ -171,7 +172,7 @@ def run(ctx):
                 idx += 1
                 if not ctx.mine(idx):
                     continue
-                kind = ("Node", "AnyNode", "NM", "LM")[idx % 4]
+                kind = KINDS[idx % len(KINDS)]
                 nodes = build(par, list(names), kind)
                 idmap = {id(o): i for i, o in enumerate(nodes)}
                 case = {"kind": kind, "sep": "/", "par": list(par), "names": list(names)}
@@ -194,16 +195,20 @@ def run(ctx):
         if sep != "/":
             ctx.count("C07.sep_other")
         ic = bool(r % 2)
-        kind = ("Node", "AnyNode", "NM", "LM")[(r // 2) % 4]
+        kind = KINDS[(r // 2) % len(KINDS)]
+        if kind.startswith("Falsy"):
+            ctx.count("C07.falsy_nodes")
         pathattr = "name"
         wild = r % 3 == 1
         names = gen.unique_sibling_names(rng, ch, sep=sep, hostile=True, ignorecase=ic, wild=wild)
         if wild and any("*" in x or "?" in x for x in names):
             ctx.count("C07.wildcard_chars_in_names")
-        if kind == "AnyNode" and r % 3 == 0:
+        if kind in ("AnyNode", "FalsyAny") and (r // 12) % 2 == 0:
             pathattr = "id"
-            if r % 6 == 0:
-                names = list(range(100, 100 + n))  # int-valued path attribute
+            if (r // 24) % 2 == 0:
+                # int-valued path attribute, compared as str(value); 0 is a falsy value whose string form is a perfectly good component
+                names = list(range(0, n)) if (r // 48) % 2 == 0 else list(range(100, 100 + n))
+                ctx.count("C07.int_valued_pathattr")
         if r % 11 == 5 and kind in ("Node", "AnyNode") and sep not in "(),' ":
             # non-string path attributes (tuples): compared as str(value); they also appear in error messages
             names = [("t%d" % i,) if i % 2 else ("t", i) for i in range(n)]
